@@ -1,7 +1,8 @@
 (* C17 -- VRF import/export and RT Constraint distribute exactly the matching routes.
-   Statements only.  Model: Vrf.Model (one route per VPN key at a time; what a peer holds is a set of keys). *)
+   Statements only.  Model: Vrf.Model (one route per VPN key at a time; what a peer holds is a set of keys) and Vrf.Index
+   (the route-target index of the VPN table with several sources per destination, no ADD-PATH). *)
 From Coq Require Import List ZArith Bool.
-From Verif Require Import Vrf.Model Vrf.Proofs.
+From Verif Require Import Vrf.Model Vrf.Proofs Vrf.Index.
 Import ListNotations.
 Open Scope Z_scope.
 
@@ -45,6 +46,25 @@ Theorem C17_membership_frame : forall peers s q m e, e = MAdd q m \/ e = MDel q 
   (forall p, p <> q -> t_mem (step peers s e) p = t_mem s p).
 Proof. exact membership_frame. Qed.
 Print Assumptions C17_membership_frame.
+
+(* the route-target index: after ANY history of table updates (any number of sources per destination, any selected path),
+   the index holds per target exactly the selected paths that carry it, each once; so the candidates that
+   processRTCMembership takes from GetPathsByRT are "the selected routes carrying the target" of Vrf.Model *)
+Theorem C17_route_target_index_exact : forall h, ih_ok iinit h -> IInv (irun iinit h).
+Proof. exact index_exact. Qed.
+Print Assumptions C17_route_target_index_exact.
+
+Theorem C17_index_candidates_are_the_selected_routes : forall h t k r asn, ih_ok iinit h ->
+  (In (k, r) (paths_by_rt (irun iinit h) t) <-> best (i_cands (irun iinit h)) k = Some r /\ carries (asn, Some t) r = true).
+Proof. exact paths_by_rt_are_the_selected_routes_carrying. Qed.
+Print Assumptions C17_index_candidates_are_the_selected_routes.
+
+(* non-vacuity, and the variant "a withdrawal only unregisters" fails the invariant (two sources, the selected one withdrawn) *)
+Example C17_index_nonvacuous :
+  let a := mkVR 1 1 100 1 [7] in let d := mkVR 1 1 100 4 [7] in
+  let s1 := irun iinit [IUpd 5 [a] false; IUpd 5 [a; d] true] in
+  IInv s1 /\ ~ IInv (istep_withdraw_only s1 5 [d]).
+Proof. exact withdraw_only_variant_refuted. Qed.
 
 (* non-vacuity: a route with targets 1 and 2; peer 2 is a member of both; it keeps the route when one membership goes,
    loses it when both are gone; the default membership alone is enough *)
